@@ -74,7 +74,7 @@ BOUNDS = {
         "cover": {"plates": "1..4", "rows_per_plate": "1..2", "variants": ["mix0", "mix2", "alt"],
                   "variants_at_4_plates": ["mix0", "alt"], "n_chunks": "1..P+2",
                   "batches": "None + every subset of plate ids"},
-        "select": {"plates": "1..3", "variants": ["alt"], "n_chunks": "1..4", "orders": "all (<= 4!)",
+        "select": {"plates": "1..3", "variants": ["alt"], "variants_at_1_2_plates": ["alt", "mix2"], "n_chunks": "1..4", "orders": "all (<= 4!)",
                    "scores": "menu {-inf,0,1,2.5} in every way", "policies": "none, k-per-sample k=1,2, stub allowing every subset of the candidates (+ all ids, + non-candidates)"},
         "real": {"plates": "1..3", "scorers": ["RandomScorer (3-value answer menu per draw)", "SizeScorer"],
                  "n_chunks": "1..4 (RandomScorer at 3 plates: 1..3)", "orders": "all"},
@@ -85,7 +85,7 @@ BOUNDS = {
         "cover": {"plates": "1..5", "rows_per_plate": "1..2", "variants": ["mix0", "mix2", "mix4", "alt", "blk"],
                   "variants_at_5_plates": ["mix0", "mix2", "alt"], "n_chunks": "1..P+2",
                   "batches": "None + every subset of plate ids"},
-        "select": {"plates": "1..4", "variants": ["alt", "blk", "mix0"], "variants_at_4_plates": ["alt"],
+        "select": {"plates": "1..4", "variants": ["alt", "blk", "mix2"], "variants_at_4_plates": ["alt"],
                    "n_chunks": "1..4", "orders": "all (<= 4!)",
                    "scores": "menu {-inf,0,1,2.5} in every way for <= 3 candidates, {-inf,0,1} for 4",
                    "policies": "none, k-per-sample k=1,2, stub allowing every subset of the candidates (+ all ids, + non-candidates)"},
@@ -890,7 +890,10 @@ def plan(tier, seed):
                         items.append({"kind": "cover", "variant": v, "layouts": [s], "obs_first": o0})
     # select
     for P in range(1, (3 if quick else 4) + 1):
-        variants = ["alt"] if (quick or P == 4) else ["alt", "blk", "mix0"]
+        if quick:
+            variants = ["alt", "mix2"] if P <= 2 else ["alt"]   # mix2: multi-sample plates, k-per-sample refuses
+        else:
+            variants = ["alt"] if P == 4 else ["alt", "blk", "mix2"]
         for v in variants:
             items += _grouped("select", {"sizes": SELECT_SIZES[P], "variant": v}, P, {}, 2, True)
     # shipped scorers
